@@ -256,13 +256,10 @@ let rec predict_inner (c : string) (obs : string) : string * string * bool =
         else "ok" in
       (p, v, true)
   | "cfile" :: ext :: _ :: shoots ->
-      let p = (match sfmt_of ext with
-        | FOther -> "newerr"
-        | _ ->
-            (match convert known (List.map bytes_of_hex shoots) [] [] with
-             | VOk (steps, _) -> "ok " ^ merge_rle steps
-             | VErr -> "newerr"
-             | VPanic -> "panic")) in
+      let p = (match scenario_requests (sfmt_of ext) known (List.map bytes_of_hex shoots) with
+        | VOk (steps, _) -> "ok " ^ merge_rle steps
+        | VErr -> "newerr"
+        | VPanic -> "panic") in
       safe p
   | ["sfile"; _; _; _] ->
       (* third-party HCL / YAML parsers behind the real provider constructor: fuzzed, not modelled *)
